@@ -3,7 +3,7 @@ import re
 from vlib import core
 from vlib.core import hexs
 
-WRAP = "-Wl,--wrap=tls_record_send,--wrap=tls_record_recv,--wrap=sm2_do_ecdh,--wrap=tls_pre_master_secret_generate"
+WRAP = "-Wl,--wrap=tls_record_send,--wrap=tls_record_recv,--wrap=sm2_do_ecdh,--wrap=tls_pre_master_secret_generate,--wrap=tls_record_set_handshake_certificate,--wrap=hkdf_expand"
 PROTOS = ["tlcp", "tls12", "tls13"]
 VER = {"tlcp": "0101", "tls12": "0303", "tls13": "0304"}
 SUITE = {"tlcp": "e013", "tls12": "e011", "tls13": "00c6"}
@@ -48,7 +48,22 @@ def make_script(r, proto, rounds):
     """rounds: list of (side, W, R).  The reader drains completely after each write, so that no
     endpoint ever sends while it holds unread data (tls_encrypt_send refuses that)."""
     steps = []
-    for side, W, R in rounds:
+    for rnd in rounds:
+        if rnd[0] == "partial":
+            # the reader consumes only part of a record, writes on the SAME endpoint, then reads the rest
+            _, side, W, k, W2 = rnd
+            other = "s" if side == "c" else "c"
+            steps.append("w%s%d" % (side, W))
+            steps.append("r%s%d" % (other, k))                 # k < first record: data stays buffered in conn->databuf
+            steps.append("w%s%d" % (other, W2))                # TLCP / TLS 1.2: refused; TLS 1.3: sent, buffer untouched
+            for rec in chunks_of_write(proto, W):
+                steps.append("r%s%d" % (other, 20000))         # the rest of the first record, then the following records
+            if proto != "tls13":
+                steps.append("w%s%d" % (other, W2))            # now accepted
+            for rec in chunks_of_write(proto, W2):
+                steps.append("r%s%d" % (side, 20000))
+            continue
+        side, W, R = rnd
         other = "s" if side == "c" else "c"
         if W == 0:
             # one send call with an empty buffer: refused by tls_send, an empty record for tls13_send
@@ -91,6 +106,10 @@ def hs_cases(ctx):
                     rounds.insert(r.below(len(rounds) + 1), ("c", 0, r.choice([1, 7, 16384])))
                     rounds.insert(r.below(len(rounds) + 1), ("s", 0, r.choice([1, 7, 16384])))
                     rounds.append((r.choice("cs"), 0, 7)); rounds.append((r.choice("cs"), r.range(1, 300), 20000))
+                    # partially consumed records with a write in between, both roles
+                    for sd in ("c", "s"):
+                        W = r.choice([2, 100, 16384, 20000]); k = r.choice([1, 7, min(W, 16384) - 1]) if W > 2 else 1
+                        rounds.insert(r.below(len(rounds) + 1), ("partial", sd, W, k, r.choice([1, 50, 16384, 17000])))
                     scripts.append(make_script(r, proto, rounds))
                     if not thorough and len(scripts) >= 5:
                         break
